@@ -1,0 +1,29 @@
+"""Fault points for external verification harnesses.
+
+Inert unless the environment variable LOKY_VERIF is set to "1": the call sites
+import this module only under that guard. A fault is selected with
+LOKY_VERIF_FAULT="<point>:<action>" where action is one of kill9, segv,
+term, exit:<n>, pause:<seconds>, touch:<path>.
+"""
+import os
+import signal
+import time
+
+
+def point(name):
+    spec = os.environ.get("LOKY_VERIF_FAULT", "")
+    if not spec.startswith(name + ":"):
+        return
+    action = spec[len(name) + 1 :]
+    if action == "kill9":
+        os.kill(os.getpid(), signal.SIGKILL)
+    elif action == "segv":
+        os.kill(os.getpid(), signal.SIGSEGV)
+    elif action == "term":
+        os.kill(os.getpid(), signal.SIGTERM)
+    elif action.startswith("exit:"):
+        os._exit(int(action[5:]))
+    elif action.startswith("pause:"):
+        time.sleep(float(action[6:]))
+    elif action.startswith("touch:"):
+        open(action[6:], "a").close()
